@@ -422,6 +422,8 @@ def index_bound_sites(ctx, R, only_fn=None):
             cf = counter_form(ctx, b, o, bi, t, alloc_n)
             if cf is True:
                 ctx.ok(R, key, where, "index is a counter advanced once per written element under the same predicate as the allocated count %s" % LA.show_len(alloc_n))
+            elif isinstance(cf, tuple) and cf and cf[0] == "VIOLATED":
+                ctx.violated(R, key, where, cf[1])
             else:
                 ctx.unproven(R, key, where, "index %s not provably within allocated length %s (%s)" % (form, LA.show_len(alloc_n), cf))
     return n
@@ -511,6 +513,9 @@ def counter_form(ctx, b, o, bi, t, alloc_n):
         item = loop_item(b, o, h)
         if item and item[1] == alloc_n:
             return True
+    if alloc_n[0] == "CountLeadingRun":
+        return ("VIOLATED", "the array is allocated for the LEADING RUN of elements that satisfy %s (take_while) but a slot is written for every element that does: "
+                "one rejected element before an accepted one and the later entries are written behind the array" % LA.show_pred(alloc_n[2]))
     return "allocated length form %s not supported by the counter idiom" % (alloc_n[0],)
 
 
